@@ -409,7 +409,12 @@ pub fn run_case(case: &SimCase) -> SimRun {
         if enabled.is_empty() {
             // Only the final join of the actor tasks (cross-thread wake-up of the async-std
             // JoinHandles) can be outstanding. Give it a bounded amount of real time.
-            let deadline = std::time::Instant::now() + std::time::Duration::from_secs(2);
+            // (after three such timeouts in this process the wait is cut to 30 ms: the code under
+            // test then blocks on something outside the harness, and every case would pay it)
+            static TIMEOUTS: std::sync::atomic::AtomicU32 = std::sync::atomic::AtomicU32::new(0);
+            let long = TIMEOUTS.load(std::sync::atomic::Ordering::Relaxed) < 3;
+            let deadline = std::time::Instant::now()
+                + if long { std::time::Duration::from_secs(2) } else { std::time::Duration::from_millis(30) };
             let mut ok = false;
             while std::time::Instant::now() < deadline {
                 pool.run_until_stalled();
@@ -421,6 +426,9 @@ pub fn run_case(case: &SimCase) -> SimRun {
                     break;
                 }
                 std::thread::sleep(std::time::Duration::from_micros(50));
+            }
+            if !ok && run_done {
+                TIMEOUTS.fetch_add(1, std::sync::atomic::Ordering::Relaxed);
             }
             terminated_clean = ok;
             break;
